@@ -1147,6 +1147,8 @@ class Interp:
                 if isinstance(it, VList) and it.obj.items is None and getattr(it.obj, "comp_iter", None) is not None:
                     ci = it.obj.comp_iter  # a map over a comprehension-built list runs over what that comprehension ran over
                 self._last_comp_iter = ci
+                # an order- and count-preserving map over one iterable: remember which
+                self._last_comp_src = it if len(gens) == 1 and not g.ifs else None
                 self.assign(g.target, self.loop_elem(it, False, node), node)
                 for c in g.ifs:
                     self.eval(c)
@@ -1187,6 +1189,7 @@ class Interp:
             lv.obj.elem = out[0] if out else None
             lv.obj.comp_node = node
             lv.obj.comp_iter = self._last_comp_iter
+            lv.obj.comp_src = getattr(self, "_last_comp_src", None)
         return lv
 
     def ev_GeneratorExp(self, node):
@@ -1249,6 +1252,9 @@ class Interp:
         for kw in node.keywords:
             if kw.arg is None:
                 d = self.eval(kw.value)
+                if isinstance(d, VDict) and d.obj.items is not None and any(not isinstance(k, str) and not (isinstance(k, tuple) and k and k[0] == "sym") for k in d.obj.items):
+                    # f(**d) needs string keys: TypeError "keywords must be strings"
+                    raise RaiseEx("TypeError", self.site(node), "keywords must be strings (** of a dictionary with a non-string key)", True)
                 if isinstance(d, VDict) and d.obj.items is not None and not d.obj.extra_unknown:
                     for k, v in d.obj.items.items():
                         kwargs[k] = v
@@ -1588,6 +1594,7 @@ class Interp:
             return VBound(base, "data_ptr")
         if isinstance(base, VUnknown):
             u = VUnknown("%s.%s" % (base.tag, attr), "unknown", base.origin)
+            u.recv = base
             return u
         return VBound(base, attr)
 
@@ -1792,7 +1799,8 @@ class Interp:
         sw = src.obj.float_width() if isinstance(src, VTens) else None
         if sw is None and dw == 32 and (not isinstance(src, VTens) or src.obj.valkind not in ("bool", "index", "perm", "str")):
             sw = 64  # a width that was not tracked: the library's data and parameters are float64 (stated assumption)
-        if dw == 32 and sw == 64:
+        exact = isinstance(src, VTens) and (src.obj.valkind in ("bern", "bool") or _is_bern(term))  # 0 / 1 values: exact in every float width
+        if dw == 32 and sw == 64 and not exact:
             self.narrowings.append((self.site(node), "float64 values are written into a float32 tensor (%s)" % detail, src.obj))
         elif dw == 64 and sw == 32 and term is not None and hasattr(term, "is_const") and not term.is_const() and src.obj.origin == "fresh":
             self.narrowings.append((self.site(node), "a float64 tensor is filled from a float32 intermediate (%s)" % detail, src.obj))
@@ -1987,6 +1995,11 @@ def _is_accumulated(body, name):
                     if isinstance(m, ast.Name) and m.id == name:
                         return True
     return False
+
+
+def _is_bern(term):
+    a = term.single_atom() if term is not None and hasattr(term, "single_atom") else None
+    return isinstance(a, T.App) and a.op in ("bern", "loop") and (a.op == "bern" or (len(a.args) >= 4 and _is_bern(a.args[3])))
 
 
 def _count_term(it):
